@@ -283,6 +283,32 @@ def handle (j : Json) : Except String Json := do
       | "nfa_language_file" => CheckText.nfaLanguageFile ans ref sched (gn "len")
       | _ => CheckText.Verdict.error
     pure (okJ (Json.str v.toString))
+  | "chk_cex" => do
+    let name ← getStr j "name"
+    let ans ← getStr j "answer"
+    let ref ← getStr j "ref"
+    let gs := fun (k : String) => match j.getObjVal? k with | .ok (Json.str s) => s | _ => ""
+    let gn := fun (k : String) => match j.getObjVal? k with | .ok v => (v.getNat?.toOption.getD 0) | _ => 0
+    let sched := match getSched j with | .ok s => s | _ => []
+    let r := match name with
+      | "product_union" => CheckCex.report (CheckCex.productLangs .union ans ref (gs "ref2") (gn "len"))
+      | "product_intersection" => CheckCex.report (CheckCex.productLangs .intersection ans ref (gs "ref2") (gn "len"))
+      | "product_symmetric_difference" => CheckCex.report (CheckCex.productLangs .symmetricDifference ans ref (gs "ref2") (gn "len"))
+      | "reverse" => CheckCex.report (CheckCex.reverseLangs ref ans sched (gn "len"))
+      | "minimal" => CheckCex.report (CheckCex.minimalLangs ref ans (gn "len"))
+      | "dfa2regexp" => CheckCex.report (CheckCex.dfa2regexpLangs ref ans (gn "len"))
+      | "chomsky" => CheckCex.report (CheckCex.chomskyLangs ref ans (gn "len"))
+      | "dfa_accepts_rejects" => CheckCex.dfaAcceptsRejectsReport ans (gs "accepted") (gs "rejected")
+      | "cfg_accepts_rejects" => CheckCex.cfgAcceptsRejectsReport ans (gs "accepted") (gs "rejected")
+      | "dfa_language_words" => CheckCex.report (CheckCex.dfaLanguageWordsLangs ans (gs "words") (gn "len"))
+      | "nfa_language_words" => CheckCex.report (CheckCex.nfaLanguageWordsLangs ans (gs "words") sched (gn "len"))
+      | "cfg_language_words" => CheckCex.report (CheckCex.cfgLanguageWordsLangs ans (gs "words") (gn "len"))
+      | "dfa_language_file" => CheckCex.report (CheckCex.dfaLanguageFileLangs ans ref (gn "len"))
+      | "nfa_language_file" => CheckCex.report (CheckCex.nfaLanguageFileLangs ans ref sched (gn "len"))
+      | _ => none
+    pure (okJ (match r with
+      | none => Json.null
+      | some (w, extra) => Json.mkObj [("word", Json.str (String.join w)), ("extra", Json.bool extra)]))
   -- text formats (C16/C17)
   | "parse_dfa" => do
     let sr := match j.getObjVal? "state_regex" with | .ok (Json.str s) => s | _ => ""
